@@ -92,6 +92,8 @@ def l21(via):
             pass
     accepted = (c.status == Status.CONNECTED) or (c.session_key_bytes is not None)
     check(Or(Not(accepted), genuine), 'the client connects / adopts a key only from a hello signed by the pinned key over these parameters')
+    check(c.server_public_key is not None and c.server_public_key.getBytes() == root.getPublicKey().getBytes(),
+          'the pinned key is configuration: nothing a hello carries replaces it')
     if genuine and rf != 2:
         check(c.status == Status.CONNECTED and c.session_key_bytes is not None, 'the genuine hello is accepted')
         check(c.token == token, 'the client adopts the token of the genuine hello')
@@ -147,7 +149,9 @@ def replay_l21(cfg, m):
     bad = (accepted and not genuine) or (not accepted and (cl.outgoing_messages or True in calls or cl.token != 0))
     if genuine and ch('root_field') != 2:
         bad = bad or not accepted
-    return bool(bad), 'root_field=%d payload=%d signature=%d -> accepted=%s' % (ch('root_field'), pi, si, accepted)
+    pin_kept = cl.server_public_key is not None and cl.server_public_key.getBytes() == root.getPublicKey().getBytes()
+    bad = bad or not pin_kept
+    return bool(bad), 'root_field=%d payload=%d signature=%d -> accepted=%s pin kept=%s' % (ch('root_field'), pi, si, accepted, pin_kept)
 
 
 R.add('L2.1', l21, [dict(via='message'), dict(via='datagram')], replay=replay_l21,
@@ -307,6 +311,57 @@ R.add('L2.3', l23, [{}], desc='temp connection + datagram from its address: prom
       expect=['promotion <=> CHALLENGE_RESP sealed under the key of this connection carrying the issued token',
               'connect is reported at most once per client'],
       bounds='peer key: right / wrong / key of another pending handshake; 4 datagram types; tokens symbolic')
+
+
+# ------------------------------------------------------------------ L2.5 the pin survives a reconnect
+def l25():
+    """UdpClient built with the server's key; first connect attempt: the hello that arrives is any combination an
+    attacker can assemble around genuine material (including a genuine signed payload with a foreign key in the
+    unsigned root-key field); then the application reconnects with the same UdpClient and the attacker answers with a
+    hello signed by its own key.  The second attempt is refused: the pin is configuration and survives."""
+    clock = proto.clock_at(100.0)
+    root = newkey('root')
+    evil_root = newkey('evilroot')
+    srv_eph = newkey('srv_eph')
+    evil_eph = newkey('evil_eph')
+    u = proto.client_mod.UdpClient(root.getPublicKey())
+    u.connect(('srv', 9), None)
+    c1 = u.conn
+    c1.clock = clock
+    P = hello_payload(srv_eph.getPublicKey(), rope.fixed_blob('salt', 16), symint('token', 1, 2 ** 31 - 1))
+    sigP = root.sign(P)
+    root_field = [root.getPublicKey().getBytes(), evil_root.getPublicKey().getBytes()][choose(2, 'root_field')]
+    first = hello_message(root_field, P, sigP)          # verifies under the pin whatever the unsigned field says
+    try:
+        c1._recvServerHello(first)
+    except Exception:
+        pass
+    check(c1.status == Status.CONNECTED, 'the first handshake (genuine signature) is accepted')
+    # the link drops / the application reconnects, with or without tearing the old connection down first
+    if bool(symbool('force_disconnect_first')):
+        u.forceDisconnect()
+    u.connect(('srv', 9), None)
+    c2 = u.conn
+    c2.clock = clock
+    check(c2 is not c1, 'connect() starts a new connection')
+    check(c2.server_public_key is not None and c2.server_public_key.getBytes() == root.getPublicKey().getBytes(),
+          'the new connection is pinned to the key the client was configured with')
+    P2 = hello_payload(evil_eph.getPublicKey(), rope.fixed_blob('salt2', 16), symint('token2', 1, 2 ** 31 - 1))
+    second = hello_message(evil_root.getPublicKey().getBytes(), P2, evil_root.sign(P2))
+    try:
+        c2._recvServerHello(second)
+    except Exception:
+        pass
+    check(c2.status != Status.CONNECTED and c2.session_key_bytes is None,
+          'after a reconnect a hello signed by a foreign key is still refused (no connection, no key)')
+
+
+R.add('L2.5', l25, [{}],
+      desc='UdpClient with a pinned key: first hello genuine-signed with the pinned or a foreign key in the unsigned root-key field, '
+           'then reconnect (with / without forceDisconnect) and a hello signed by the foreign key: refused',
+      expect=['after a reconnect a hello signed by a foreign key is still refused (no connection, no key)',
+              'the new connection is pinned to the key the client was configured with'],
+      bounds='two connect attempts on one UdpClient; unsigned root-key field pinned / foreign')
 
 
 # ------------------------------------------------------------------ L2.4 no promotion without a key
